@@ -823,6 +823,43 @@ theorem shape_saveFixed {maxLen A : Nat} {name v : Str} (hname : name.length ≤
         exact hne i (by simpa using hi) rfl)
     rwa [hok.concat] at hsh
 
+/-- Every header a fixed `Save` writes names a session cookie — so a `Clear` later in the same
+    response drops all of them (`clearAfter` = `clearStore`). -/
+theorem clearAfter_saveFixed {maxLen A : Nat} {name v : Str} (hname : name.length ≤ 256)
+    (hlen : v.length ≤ 9223372036854775807)
+    (hp : Progress maxLen A name v.length) (jar : Jar) {cs : List SetCookie}
+    (h : saveFixed maxLen A name v jar = .ok cs) :
+    clearAfter name cs jar = clearStore name jar := by
+  have hall : ∀ c ∈ cs, matchesSessionName name c.name = true := by
+    rcases makeSessionCookies_spec hname hp with ⟨_, hmk⟩ | ⟨_, ps, hmk, hok, _⟩
+    · rw [saveFixed_of_ok jar hmk] at h
+      cases h
+      intro c hc
+      simp only [List.mem_append, List.mem_map, List.mem_filter, Bool.and_eq_true] at hc
+      rcases hc with ⟨p, ⟨_, hm, _⟩, rfl⟩ | ⟨p, hp', rfl⟩
+      · exact hm
+      · simp only [List.mem_singleton] at hp'
+        subst hp'
+        exact matchesSessionName_self name
+    · rw [saveFixed_of_ok jar hmk] at h
+      cases h
+      intro c hc
+      simp only [List.mem_append, List.mem_map, List.mem_filter, Bool.and_eq_true] at hc
+      rcases hc with ⟨p, ⟨_, hm, _⟩, rfl⟩ | ⟨p, hp', rfl⟩
+      · exact hm
+      · have hmem : p.1 ∈ ps.map Prod.fst := List.mem_map_of_mem hp'
+        obtain ⟨i, hi, hn⟩ := (hok.mem_names_iff p.1).1 hmem
+        have hle := hok.len_le
+        show matchesSessionName name p.1 = true
+        rw [hn]
+        exact matchesSessionName_part name (by omega)
+  unfold clearAfter
+  have : cs.filter (fun c => !matchesSessionName name c.name) = [] := by
+    rw [List.filter_eq_nil_iff]
+    intro c hc
+    simp [hall c hc]
+  rw [this, List.nil_append]
+
 theorem shape_clear (name : Str) (jar : Jar) :
     Shape name (applySetCookies jar (clearStore name jar)) none := by
   apply Shape.empty
